@@ -178,8 +178,13 @@ def write_evidence(ctx, nviol):
         "wall_s": round(time.perf_counter() - ctx.t0, 3),
         "violations": nviol,
     }
-    os.makedirs(os.path.join(VERIF, "evidence"), exist_ok=True)
-    path = os.path.join(VERIF, "evidence", "%s.json" % ctx.prop)
+    # the evidence directory describes /repo itself; runs against a scratch copy (tools/seedcheck.py,
+    # tools/mutants.py set VERIF_REPO) must not overwrite it
+    evdir = os.path.join(VERIF, "evidence")
+    if os.path.realpath(os.environ.get("VERIF_REPO", "/repo")) != "/repo":
+        evdir = os.path.join(VERIF, "build", "evidence-scratch")
+    os.makedirs(evdir, exist_ok=True)
+    path = os.path.join(evdir, "%s.json" % ctx.prop)
     tmp = path + ".tmp"
     with open(tmp, "w") as f:
         json.dump(ev, f, indent=1, sort_keys=True)
@@ -204,7 +209,60 @@ def confirm(prop, path):
         raise HarnessError("replay of %s does not reproduce (rc=%s)" % (path, outs[0][0]))
 
 
+def _descendants(root):
+    kids = {}
+    for d in os.listdir("/proc"):
+        if d.isdigit():
+            try:
+                with open("/proc/%s/stat" % d) as f:
+                    st = f.read()
+                ppid = int(st[st.rindex(")") + 2:].split()[1])
+                kids.setdefault(ppid, []).append(int(d))
+            except (OSError, ValueError):
+                pass
+    out, todo = [], [root]
+    while todo:
+        for k in kids.get(todo.pop(), []):
+            out.append(k)
+            todo.append(k)
+    return out
+
+
+def _memory_watchdog(limit_gb):
+    """A change to the code under test can make a check eat memory without bound (e.g. a list that is shared
+    between calls and keeps growing).  Rather than taking the machine down, the run is aborted as a harness
+    error (exit 2) when the resident memory of the check's process tree exceeds the limit."""
+    import _thread
+    page = os.sysconf("SC_PAGE_SIZE")
+    me = os.getpid()
+    real_sleep = time.sleep       # the world replaces time.sleep later; this thread must never touch the virtual clock
+
+    def loop():
+        while True:
+            real_sleep(5)
+            tot = 0
+            pids = [me] + _descendants(me)
+            for pid in pids:
+                try:
+                    with open("/proc/%d/statm" % pid) as f:
+                        tot += int(f.read().split()[1]) * page
+                except (OSError, ValueError, IndexError):
+                    pass
+            if tot > limit_gb * (1 << 30):
+                sys.stdout.write("HARNESS-ERROR the check's process tree uses %.1f GB of memory (limit %d GB): aborted\n"
+                                 % (tot / (1 << 30), limit_gb))
+                sys.stdout.flush()
+                for pid in pids[1:]:
+                    try:
+                        os.kill(pid, 9)
+                    except OSError:
+                        pass
+                os._exit(2)
+    _thread.start_new_thread(loop, ())
+
+
 def main():
+    _memory_watchdog(int(os.environ.get("VERIF_MEM_GB", "40")))
     ap = argparse.ArgumentParser()
     ap.add_argument("prop")
     ap.add_argument("--tier", default=os.environ.get("VERIF_TIER", "quick"), choices=["quick", "thorough"])
